@@ -192,6 +192,14 @@ def check(case, ctx):
     wants = {v: RI.content(base_triples, v, rm) for v in variables}
     inits = [('decoded', g0), ('markerless', Graph(base_triples, top=g0.top)), ('decoded+deepcopy', copy.deepcopy(g0)),
              ('hand-built, implicit top', Graph(base_triples))]      # no top given: it is the source of the first triple
+    wants_of = {label: wants for label, _ in inits}
+    attrs = [x for x in base_triples if x[1] != ':instance' and x[2] not in g0.variables()]
+    if attrs:
+        # a graph may legitimately state a triple twice (penman issue 34): both copies are content
+        k = base_triples.index(attrs[0])
+        dup_triples = base_triples[:k + 1] + [attrs[0]] + base_triples[k + 1:]
+        inits.append(('decoded, one attribute stated twice', Graph(dup_triples, top=g0.top, epidata=copy.deepcopy(g0.epidata))))
+        wants_of['decoded, one attribute stated twice'] = {v: RI.content(dup_triples, v, rm) for v in variables}
     # a client may have used the sort keys of other models on the same roles before (shared caches must not matter)
     for other in ('DEFAULT', 'AMR', 'MINI'):
         if other != name:
@@ -207,7 +215,7 @@ def check(case, ctx):
     for label, g in inits:
         seen.add(_snapshot(g))
         frontier.append(([label], g))
-    shallow = {'markerless', 'decoded+deepcopy', 'hand-built, implicit top'}      # these initial variants are explored one level less deep
+    shallow = {'markerless', 'decoded+deepcopy', 'hand-built, implicit top', 'decoded, one attribute stated twice'}      # these initial variants are explored one level less deep
     depth = 0
     real_random = pmodel.random
     try:
@@ -239,7 +247,7 @@ def check(case, ctx):
                             why = _branch_spec_ok(pre, tr.node, set(RI.tree_vars(pre)), arg, af, rm)
                             if why:
                                 ctx.fail(f'rearrange({arg}, attributes_first={af}): {why}', expected=pre, observed=tr.node,
-                                         case={'t': case['t'], 'depth': case['depth'], 'model': name, 'history': hist + [list(map(str, op))]})
+                                         case={**case, 'model': name, 'history': hist + [list(map(str, op))]})
                                 return
                             g2 = layout.interpret(tr, pm)
                         elif kind == 'RT':
@@ -254,19 +262,20 @@ def check(case, ctx):
                     except Exception as e:      # noqa: BLE001
                         pmodel.random = real_random
                         ctx.fail(f'operation {kind}({arg}) raised {type(e).__name__}', observed=str(e)[:200],
-                                 case={'t': case['t'], 'depth': case['depth'], 'model': name, 'history': hist + [list(map(str, op))]})
+                                 case={**case, 'model': name, 'history': hist + [list(map(str, op))]})
                         return
                     ctx.transitions += 1
                     ctx.validated += 1     # reference content / reference key order compared for this transition
                     if _snapshot(g) != before:
                         ctx.fail(f'operation {kind}({arg}) modified its argument graph', expected=repr(before)[:300], observed=repr(_snapshot(g))[:300],
-                                 case={'t': case['t'], 'depth': case['depth'], 'model': name, 'history': hist + [list(map(str, op))]})
+                                 case={**case, 'model': name, 'history': hist + [list(map(str, op))]})
                         return
                     got = RI.content(g2.triples, g2.top, rm, deinvert=False)
+                    wants = wants_of[hist[0]]
                     if g2.top != top_expected or got != wants[top_expected]:
                         ctx.fail(f'graph content or top changed by {kind}({arg}{"" if af is None else ", attributes_first=%s" % af}) under {name}',
                                  expected=[top_expected, wants[top_expected]['triples']], observed=[g2.top, got['triples']],
-                                 case={'t': case['t'], 'depth': case['depth'], 'model': name, 'history': hist + [list(map(str, op))]})
+                                 case={**case, 'model': name, 'history': hist + [list(map(str, op))]})
                         return
                     sn = _snapshot(g2)
                     if sn not in seen:
